@@ -24,7 +24,27 @@ func itName(t lineintersection.Type) string {
 	return "?"
 }
 
+var c12ZeroCounter uint64
+
 func emitSeg(e *Emitter, a, b, c, d geom.Coord) {
+	// in a quarter of the cases some zero ordinates are written as -0 (the same number)
+	c12ZeroCounter = c12ZeroCounter*6364136223846793005 + 1442695040888963407
+	if c12ZeroCounter>>62 == 0 {
+		bits := c12ZeroCounter
+		cp := func(p geom.Coord) geom.Coord {
+			q := append(geom.Coord{}, p...)
+			for k := 0; k < 2 && k < len(q); k++ {
+				if q[k] == 0 {
+					bits = bits*2862933555777941757 + 3037000493
+					if bits>>63 == 1 {
+						q[k] = math.Copysign(0, -1)
+					}
+				}
+			}
+			return q
+		}
+		a, b, c, d = cp(a), cp(b), cp(c), cp(d)
+	}
 	in := fmt.Sprintf("(%s %s %s %s)", sxCoord(a), sxCoord(b), sxCoord(c), sxCoord(d))
 	done := false
 	var res, nr lineintersection.Result
